@@ -777,3 +777,168 @@ def r45_strptime_partition(ctx):
 
 
 RULES.update({"R44": r44_epoch_delegation, "R45": r45_strptime_partition})
+
+
+# ------------------------------------------------------------------- R47
+def r47_one_based_guards(ctx):
+    """1-based cyclic fields (day-of-month/-year/-week, week, month) are
+    in range for 1 <= f <= length: a carry is taken for `f > length`, a
+    borrow for `f < 1`, and the modular normalisation of the weekday works
+    on f - 1 and adds the 1 back."""
+    rep = ctx.rep
+    rule = "R47.one-based-guards"
+    rep.need_anchor(rule, "range guards")
+    tp = ctx.model.cls("TimePoint")
+    ONE_BASED = {"_day_of_month", "_day_of_year", "_day_of_week",
+                 "_week_of_year", "_month_of_year"}
+    for name in ("_tick_over", "_tick_over_day_of_month", "add_months"):
+        f = tp.methods.get(name)
+        if f is None:
+            continue
+        props = {"_tick_over": ("C01", "C06", "C20", "C02", "C04"),
+                 "_tick_over_day_of_month": ("C01", "C05", "C06"),
+                 "add_months": ("C05",)}[name]
+        for n in walk_no_nested(f.node):
+            if not isinstance(n, (ast.While, ast.If)):
+                continue
+            t = n.test
+            if not (isinstance(t, ast.Compare) and len(t.ops) == 1):
+                continue
+            a, b, op = t.left, t.comparators[0], type(t.ops[0])
+            if isinstance(b, ast.Attribute) and b.attr in ONE_BASED and not (
+                    isinstance(a, ast.Attribute) and a.attr in ONE_BASED):
+                a, b = b, a
+                op = {ast.Lt: ast.Gt, ast.Gt: ast.Lt, ast.LtE: ast.GtE,
+                      ast.GtE: ast.LtE}.get(op, op)
+            if not (isinstance(a, ast.Attribute) and a.attr in ONE_BASED):
+                continue
+            if op not in (ast.Lt, ast.LtE, ast.Gt, ast.GtE):
+                continue
+            # is it a range guard (adjusts the same field in its body)?
+            adjusts = any(isinstance(x, (ast.AugAssign, ast.Assign)) and U(
+                x.target if isinstance(x, ast.AugAssign) else x.targets[0])
+                == U(a) for st in n.body for x in ast.walk(st)) or \
+                name == "_tick_over_day_of_month"
+            if not adjusts:
+                continue
+            rep.anchor(rule, "range guards")
+            lower = isinstance(b, ast.Constant)
+            if lower:
+                ok = (op is ast.Lt and b.value == 1) or (
+                    op is ast.LtE and b.value == 0)
+                want = "%s < 1" % U(a)
+            else:
+                # clamp `if f > L: f = L` may equally be written f >= L
+                is_clamp = isinstance(n, ast.If) and len(n.body) == 1 and \
+                    isinstance(n.body[0], ast.Assign) and \
+                    U(n.body[0].value) == U(b)
+                ok = op is ast.Gt or (is_clamp and op is ast.GtE)
+                want = "%s > %s" % (U(a), U(b))
+            rep.check(ok, rule, ctx.fkey(f, None, "guard:%s:%s" % (
+                a.attr, "low" if lower else "high")), f.loc(n),
+                "range guard `%s` of the 1-based field %s" % (U(t), a.attr),
+                "%s guards the 1-based field %s with `%s`; the field is in "
+                "range for 1..length, so the guard must be `%s` (an "
+                "off-by-one here turns the last day/week/month of a period "
+                "into the 0th of the next)" % (f.qual, a.attr, U(t), want),
+                props)
+    # weekday normalisation: divmod(dow - 1, DAYS_IN_WEEK) ... + 1
+    f = tp.methods.get("_tick_over")
+    ok, why = False, "no divmod normalisation of the weekday found"
+    for n in walk_no_nested(f.node):
+        if isinstance(n, ast.Assign) and isinstance(n.value, ast.Call) and \
+                U(n.value.func) == "divmod" and "_day_of_week" in U(
+                    n.value.args[0]):
+            arg = n.value.args[0]
+            minus1 = isinstance(arg, ast.BinOp) and isinstance(
+                arg.op, ast.Sub) and U(arg.right) == "1"
+            rem = U(n.targets[0].elts[1]) if isinstance(
+                n.targets[0], ast.Tuple) else None
+            plus1 = any(isinstance(x, ast.Assign) and U(x.targets[0]).endswith(
+                "._day_of_week") and U(x.value).replace(" ", "") in (
+                    "%s+1" % rem, "1+%s" % rem)
+                for x in walk_no_nested(f.node))
+            ok = minus1 and plus1
+            why = "divmod argument %s, weekday restored as %s" % (
+                U(arg), [U(x.value) for x in walk_no_nested(f.node)
+                         if isinstance(x, ast.Assign) and
+                         U(x.targets[0]).endswith("._day_of_week")])
+    rep.check(ok, rule, ctx.fkey(f, None, "weekday-modulo"), f.loc(),
+              "the 1-based weekday is normalised as divmod(d - 1, 7) + 1",
+              "weekday normalisation: %s; a 1-based field must be shifted "
+              "to 0-based for the modulo and back (Sunday = 7 would become "
+              "0 of the next week)" % why, ("C01", "C06", "C20"))
+
+
+# ------------------------------------------------------------------- R48
+def r48_year_parts(ctx):
+    """The year is split into expanded digits / century / year-of-century /
+    year-of-decade with the radices their digit widths imply, on both
+    sides: the reader multiplies century by 10**width(YY) and the expanded
+    digits by 10**(width(CC)+width(YY)); the writer takes the matching
+    quotients and remainders."""
+    rep = ctx.rep
+    rule = "R48.year-parts"
+    T = tables_of(ctx)
+    widths = {}
+    for row in T.date_info(2):
+        m = re.search(r"\(\?P<(\w+)>((?:\[0-9\])+)\)", row[1])
+        if m:
+            widths[m.group(1)] = m.group(2).count("[0-9]")
+    w_yy = widths.get("year_of_century")
+    w_cc = widths.get("century")
+    if not w_yy or not w_cc:
+        rep.error("R48", "digit widths of century / year_of_century not "
+                  "found in the date table")
+        return
+    want_cc = 10 ** w_yy
+    want_x = 10 ** (w_yy + w_cc)
+    rep.need_anchor(rule, "year decompositions")
+    f = ctx.func("parsers.TimePointParser._create_timepoint_from_info")
+    got = {}
+    for n in walk_no_nested(f.node):
+        if isinstance(n, ast.AugAssign) and isinstance(n.op, ast.Add) and \
+                isinstance(n.value, ast.BinOp) and isinstance(
+                    n.value.op, ast.Mult):
+            k, v = n.value.left, n.value.right
+            if isinstance(v, ast.Constant):
+                k, v = v, k
+            if isinstance(k, ast.Constant):
+                for part in ("century", "expanded_year"):
+                    if part in U(v):
+                        got[part] = k.value
+    rep.anchor(rule, "year decompositions")
+    rep.check(got.get("century") == want_cc and
+              got.get("expanded_year") == want_x, rule,
+              ctx.fkey(f, None, "reader-radices"), f.loc(),
+              "the reader assembles year = YY + %d*CC + %d*X" % (want_cc,
+                                                                want_x),
+              "the reader multiplies century by %s and the expanded digits "
+              "by %s; the digit widths of the date table imply %d and %d" % (
+                  got.get("century"), got.get("expanded_year"), want_cc,
+                  want_x), ("C07", "C08"))
+    tp = ctx.model.cls("TimePoint")
+    exp = {"century": ("(abs(self._year) %% %d) // %d" % (want_x, want_cc),),
+           "year_of_century": ("abs(self._year) %% %d" % want_cc,),
+           "year_of_decade": ("abs(self._year) % 10",),
+           "expanded_year_digits": ("abs(self._year / %d)" % want_x,
+                                    "abs(self._year) // %d" % want_x,
+                                    "abs(self._year // %d)" % want_x)}
+    for pname, forms in exp.items():
+        g = tp.methods.get(pname)
+        if g is None:
+            continue
+        rep.anchor(rule, "year decompositions")
+        rets = [U(n.value).replace(g.self_name + ".", "self.")
+                for n in walk_no_nested(g.node) if isinstance(n, ast.Return)]
+        forms = tuple(U(ast.parse(x, mode="eval").body) for x in forms)
+        rep.check(len(rets) == 1 and rets[0] in forms, rule,
+                  ctx.fkey(g, None, "writer-radix"), g.loc(),
+                  "%s is %s" % (pname, rets[0] if rets else "-"),
+                  "TimePoint.%s returns %s; with %d-digit century and "
+                  "%d-digit year-of-century fields it must be %s" % (
+                      pname, rets, w_cc, w_yy, forms[0]), ("C07", "C08",
+                                                           "C17"))
+
+
+RULES.update({"R47": r47_one_based_guards, "R48": r48_year_parts})
